@@ -6,11 +6,17 @@ META = {
                     "inode_scan_and_fix do; qsort replaced by an insertion sort driven by the real comparator",
                     "newsize: ext2fs_bg_has_super cut to the on-disk format rule (the real function is decided against it in C20/bg_has_super; "
                     "thorough-tier harness newsize_real links the real one for sizes < 2^24); blocks per group a power of two",
-                    "gdconv: consistent old file system for the accessor-level claim (locations below the block count, counters < 2^16)"],
+                    "gdconv: consistent old file system for the accessor-level claim (locations below the block count, counters < 2^16)",
+                    "eamove / inoscan / blkmove / ss2reserve: kernel-level steps of the data-moving stages with the I/O, allocator and bitmap "
+                    "layers replaced by recording stubs (bitmaps: one byte per block, harness/C08/bytemap.h); inoscan delivers ONE inode per scan; "
+                    "blkmove cuts mark_table_blocks (symbolic metadata set) and reserve_sparse_super2_last_group (decided separately in ss2reserve); "
+                    "ext2fs_allocate_group_table is assumed to place tables inside the new size (and outside an already marked backup footprint)"],
     "outside": ["THIS IS A THIN SLICE: no harness moves a block or an inode. File preservation (path, content, attributes) and "
                 "e2fsck-consistency of the resized file system are whole-tool statements and are not decided",
-                "every stage behind the stubs of errflag: blocks_to_move, block_mover, inode_scan_and_fix (block remapping through extents / "
-                "indirect blocks / xattr blocks, inode renumbering), inode_ref_fix (directory entries), fix_ea_inode_refs, move_itables, "
+                "the stages behind the stubs of errflag except the kernels named in the harness list: block_mover (copying, allocation order), "
+                "the block walk itself (ext2fs_block_iterate3 + process_block on real extent trees / indirect blocks), the growth branch of "
+                "blocks_to_move beyond 'succeeds, stays inside the file system' (mark_fs_metablock bookkeeping, needed_blocks there), "
+                "mark_table_blocks, inode_ref_fix (directory entries), fix_ea_inode_refs, move_itables, "
                 "move_bg_metadata, zero_high_bits_in_inodes, fix_resize_inode, fix_orphan_file_inode, fix_sb_journal_backup, "
                 "resize2fs_calculate_summary_stats, clear/reserve_sparse_super2_last_group, fix_uninit_block_bitmaps",
                 "crash points INSIDE a stage (e.g. between the copy of a block and the rewrite of its reference) and the order of data writes "
@@ -161,8 +167,9 @@ MANIFEST = {
             "protocol of resize_fs() under every fault schedule of its stages, the relocation table (add / translate / sort / iterate), "
             "the size resize2fs settles on (adjust_new_size vs adjust_fs_info vs the format rules, every size below 2^32 / 2^36) and the "
             "32/64-bit group descriptor conversion. Within each harness's stated bounds the verdict covers every value. This is a thin "
-            "slice of C08: nothing that moves file data is decided.",
+            "slice of C08: no file content is ever moved or compared.",
     "note": "Trusted: CBMC's C semantics (incl. its float model for the interpolation search), the stage stubs of errflag and their "
-            "stated side effects, the harness's restatement of the on-disk format. Query errflag[FLUSH_FAULT] fails on the unchanged tree "
-            "(resize_fs ignores the result of the ext2fs_flush that makes the error flag durable); see known_findings.",
+            "stated side effects, the harness's restatement of the on-disk format. Query errflag[FLUSH_FAULT] (the flush that makes the error flag durable may "
+            "fail) found that resize_fs ignored that result; repaired in /repo by 58c4b827, the query now passes. Recording stubs of "
+            "eamove / inoscan / blkmove / ss2reserve and the byte-per-block bitmap stand-in (bytemap.h) are part of the trusted base.",
 }
